@@ -87,6 +87,13 @@ def setup_ref(shard):
     from .. import env
 
     env.eop(eop_of(shard))
+    if shard % 2 == 1:
+        # the FIRST conversion of this process starts from TEME (a TLE state sent elsewhere - the commonest first use
+        # of the library): whatever tables or caches the first evaluation fills, the references below are absolute
+        from beyond.dates import Date
+        from beyond.orbits import StateVector
+
+        StateVector([7e6, 1e5, 2e5, 10.0, 7.5e3, 100.0], Date(2004, 4, 6, 7, 51, 28), "cartesian", "TEME").copy(frame="ITRF")
 
 
 def oracle_kind(eop):
